@@ -13,6 +13,7 @@ from __future__ import annotations
 
 import copy
 import json
+import os
 from typing import Any, Dict, List, Optional
 
 from vsim import use_repo
@@ -55,7 +56,7 @@ HASHSEEDS = ["1", "2", "3"]
 def generate(seed: int, tier: str) -> Dict[str, Any]:
     rng = Rng(seed)
     r = rng.stream("gen")
-    world = E.gen_world(rng.stream("world"), bad_ts=r.chance(0.3), with_gel=r.chance(0.4))
+    world = E.gen_world(rng.stream("world"), bad_ts=r.chance(0.3), with_gel=r.chance(0.4), naive_ts=r.chance(0.4))
     fams = ["t1", "t2", "t3", "t4", "kill"]
     for f, p in (("t1cache", 0.5), ("t2cache", 0.5), ("t4cache", 0.5), ("perfcache", 0.25), ("perfcaps", 0.2), ("graph", 0.4),
                  ("hybrid", 0.25), ("quality", 0.2)):
@@ -110,6 +111,20 @@ def generate(seed: int, tier: str) -> Dict[str, Any]:
 
 def run_env(program: Dict[str, Any], env: str) -> Dict[str, Any]:
     """Execute the program once; returns artefacts with paths normalised."""
+    if env == "E7":
+        # the process's local time zone is environment too: same program, TZ far from UTC
+        import time as _real_time
+        saved_tz = os.environ.get("TZ")
+        os.environ["TZ"] = "Pacific/Kiritimati"
+        _real_time.tzset()
+        try:
+            return run_env(program, "E0")
+        finally:
+            if saved_tz is None:
+                os.environ.pop("TZ", None)
+            else:
+                os.environ["TZ"] = saved_tz
+            _real_time.tzset()
     if env == "E6":
         # a warm process: the same program already ran here, its process-global stage caches are still populated
         with Scratch() as root0:
@@ -266,6 +281,9 @@ def execute(program: Dict[str, Any]) -> Dict[str, Any]:
         envs["dirorder"] = run_env(program, "E5")
         stats["restart_runs"] = 1
     envs["warmcaches"] = run_env(program, "E6")
+    if any(isinstance(e.get("ts"), str) and e["ts"] and not e["ts"].endswith("Z") and "+" not in e["ts"] for e in program["world"].get("episodes") or []):
+        envs["tz"] = run_env(program, "E7")
+        stats["tz_runs"] = 1
     hs = str(program.get("hashseed", "1"))
     child = _CHILDREN.get(hs)
     if child is None:
